@@ -981,6 +981,48 @@ theorem gamma_reduce {K : Type*} [Field K] [LinearOrder K] [IsStrictOrderedRing 
         ≤ ((risingProd z (k + 1) : Rat) : K) * (ε * G (z + 1)) := mul_le_mul_of_nonneg_left hb hPK.le
       _ = ε * (((risingProd z (k + 1) : Rat) : K) * G (z + 1)) := by ring
 
+/-! ## gamma approximation at the positive integers: exact
+
+At an integer argument the fractional part is 0, the polynomial is its constant term 1 and the recursion is the
+plain product 1·2·…·(n − 1): the approximation as coded returns the factorial itself, with no approximation
+error at all.  This is what the correspondence check demands of every integer argument (1 … 30) whatever type
+carries it — Python `int`, numpy signed / unsigned integer scalars of every width, float scalars, 0-d arrays:
+the value is a property of the number, not of its container.  (21! no longer fits a 64-bit integer, 13! no
+longer a 32-bit one, 12! is the last one a single-precision float holds exactly: the product has to be formed
+in double precision for the statement to carry over to the code.) -/
+
+theorem fact_eq_factorial (n : Nat) : fact n = n.factorial := by
+  induction n with
+  | zero => rfl
+  | succ n ih => simp [fact, ih, Nat.factorial_succ]
+
+theorem risingProd_zero (n : Nat) : risingProd 0 (n + 1) = ((fact n : Nat) : Rat) := by
+  induction n with
+  | zero => simp [risingProd_one, fact]
+  | succ n ih =>
+    rw [risingProd_succ, ih]
+    simp only [fact]
+    push_cast
+    ring
+
+/-- `gamma(n + 1) = n!` exactly, for every natural `n` (the model of the code as it is, not of the true function) -/
+theorem gammaApprox_nat (n : Nat) : gammaApprox ((n + 1 : Nat) : Rat) = ((fact n : Nat) : Rat) := by
+  have hfl : (((n + 1 : Nat) : Rat)).floor = ((n + 1 : Nat) : Int) := Int.floor_natCast (R := Rat) (n + 1)
+  have h1 : ¬ (((n + 1 : Nat) : Rat) < 1) := by
+    have : (1 : Rat) ≤ ((n + 1 : Nat) : Rat) := by exact_mod_cast Nat.succ_le_succ (Nat.zero_le n)
+    exact not_lt.mpr this
+  unfold gammaApprox
+  simp only [hfl, if_neg h1, Int.toNat_natCast, Int.cast_natCast, sub_self]
+  rw [risingProd_zero, gammaPoly_eq]
+  simp
+
+/-- … and so it is the true gamma function there: `gamma(n + 1) = n!` with Mathlib's factorial -/
+theorem gammaApprox_factorial (n : Nat) : gammaApprox ((n + 1 : Nat) : Rat) = (n.factorial : Rat) := by
+  rw [gammaApprox_nat, fact_eq_factorial]
+
+example : gammaApprox ((21 + 1 : Nat) : Rat) = 51090942171709440000 := by
+  rw [gammaApprox_factorial]; norm_num [Nat.factorial]
+
 /-- the recursion at an integer: Γ(5) ≈ 4·3·2·1·poly(0) = 24 -/
 example : gammaApprox 5 = 24 := by
   have floor5 : (5 : Rat).floor = 5 := by
